@@ -26,7 +26,8 @@
 (*   "stop"     pthread_mutex_lock in context::stop                        *)
 (*   "run"      pthread_mutex_lock in context::run (entry / lock.lock())   *)
 (*   "wait"     blocked in pthread_cond_wait (not runnable)                *)
-(*   "woken"    signalled, about to re-acquire the mutex in cond_wait      *)
+(*   "woken"    signalled (or woken spuriously), about to re-acquire the   *)
+(*              mutex in cond_wait                                         *)
 (*   "done"     program finished                                           *)
 (***************************************************************************)
 EXTENDS Naturals, Sequences, FiniteSets, TLC
@@ -169,12 +170,21 @@ RunStep(t) ==
   /\ Label(t)
   /\ UNCHANGED <<scn, stop, stopReq, accBegun, accEnded, before, mustRun, stopCtxBegun, stopAtBegin>>
 
+\* ---- a spurious wake-up: pthread_cond_wait may return without a notification.  The waiter leaves the waiting set
+\* and re-acquires the mutex (its next step is RunStep from "woken").  Not part of the fair steps: progress must never
+\* depend on it.
+Spurious(t) == /\ pc[t] = "wait" /\ t \in cvWait
+               /\ cvWait' = cvWait \ {t} /\ pc' = [pc EXCEPT ![t] = "woken"]
+               /\ lastT' = t /\ lastPc' = "spur"
+               /\ UNCHANGED <<scn, ip, inBody, bip, queue, stop, stopReq, accBegun, accEnded, before, mustRun, stopCtxBegun,
+                              stopAtBegin, ranSeq, runners, lostAtReturn, ranOffCtx>>
+
 Step(t) == BeginStart(t) \/ StopItem(t) \/ BeginStop(t) \/ BeginRun(t) \/ Await(t) \/ Enqueue(t) \/ Stop(t) \/ RunStep(t)
 AllDone == \A t \in Threads : pc[t] = "done"
 Finished == /\ AllDone /\ lastT' = 0 /\ lastPc' = ""
             /\ UNCHANGED <<scn, pc, ip, inBody, bip, queue, stop, cvWait, stopReq, accBegun, accEnded, before, mustRun,
                            stopCtxBegun, stopAtBegin, ranSeq, runners, lostAtReturn, ranOffCtx>>
-Next == (\E t \in Threads : Step(t)) \/ Finished
+Next == (\E t \in Threads : Step(t)) \/ (\E t \in Threads : Spurious(t)) \/ Finished
 Spec == Init /\ [][Next]_vars
 FairSpec == Spec /\ \A t \in Threads : WF_vars(Step(t))
 
